@@ -325,7 +325,7 @@ class Check:
     evalA_sample = 300
     order_check = True       # re-run the stream in a shuffled order and demand identical per-case results
     twin_check = True        # near copies of a sample of the cases, run right after the case (see run_check 4c)
-    twin_sample = 400
+    twin_sample = 600
     twin_diff = False        # also compare the near copy with the model (only where every case line is in the model's domain
                              # whatever its arguments are; several operations take derived arguments as given)
     twin_maxlen = 8000
@@ -384,10 +384,35 @@ class Ctx:
 
 
 HEXRE = re.compile(r"^(?:[0-9a-f]{2})+$")
+HEXRUN = re.compile(r"[0-9a-f]{8,}")
+
+
+def _vary(a, kind, rng):
+    """a near copy of the hex string `a` (even length): one digit flipped, or two aligned chunks swapped"""
+    if kind in ("flip", "flip-late", "flip-early"):
+        if kind == "flip":
+            pos = rng.randrange(len(a))
+        elif kind == "flip-late":
+            pos = rng.randrange(max(0, len(a) - 16), len(a))
+        else:
+            pos = rng.randrange(0, min(16, len(a)))
+        ch = rng.choice([x for x in "0123456789abcdef" if x != a[pos]])
+        return a[:pos] + ch + a[pos + 1:]
+    n = 64 if kind == "swap32" else 16
+    off = rng.choice(range(0, min(n, len(a) - 2 * n + 2), 2)) if len(a) > 2 * n else 0
+    k = (len(a) - off) // n
+    if k < 2:
+        return a
+    x, y = rng.sample(range(k), 2)
+    ch = [a[off + t * n: off + (t + 1) * n] for t in range(k)]
+    ch[x], ch[y] = ch[y], ch[x]
+    return a[:off] + "".join(ch) + a[off + k * n:]
 
 
 def make_twins(cases, rng, want, maxlen, allowed=None):
-    """[(case index, near-copy line, kind)] - stratified over (operation, class); every choice comes from `rng`"""
+    """[(case index, near-copy line, kind)] - stratified over (operation, class); for a chosen case every argument that can be
+    varied gets a near copy of its own (so that a case with several fields is varied in each of them); every choice comes
+    from `rng`"""
     groups = {}
     for i, c in enumerate(cases):
         if len(c.line) <= maxlen and " " in c.line:
@@ -406,59 +431,51 @@ def make_twins(cases, rng, want, maxlen, allowed=None):
                 break
             i = rng.choice(groups[key])
             w = cases[i].line.split(" ")
-            js = [j for j in range(1, len(w)) if HEXRE.match(w[j]) or (w[j].isdigit() and len(w[j]) < 25)]
+            js = [j for j in range(1, len(w)) if HEXRUN.search(w[j]) or (w[j].isdigit() and len(w[j]) < 25)]
             if allowed is not None:
                 ok = allowed(w)
                 if ok is not None:
                     js = [j for j in js if j in ok]
-            if not js:
-                continue
-            j = rng.choice(js)
-            a = w[j]
-            kinds = ["cross"]
-            if HEXRE.match(a) and not a.isdigit():
-                kinds += ["flip", "flip-late", "flip"]
-                if len(a) >= 128:
-                    kinds += ["swap32", "swap32"]
-                if len(a) >= 32:
-                    kinds.append("swap8")
-            elif a.isdigit():
-                kinds += ["step", "step"]
-                if HEXRE.match(a):
-                    kinds.append("flip")
-            kind = rng.choice(kinds)
-            b = a
-            if kind in ("flip", "flip-late"):
-                pos = rng.randrange(len(a)) if kind == "flip" else rng.randrange(max(0, len(a) - 16), len(a))
-                ch = rng.choice([x for x in "0123456789abcdef" if x != a[pos]])
-                b = a[:pos] + ch + a[pos + 1:]
-            elif kind in ("swap32", "swap8"):
-                n = 64 if kind == "swap32" else 16
-                off = rng.choice(range(0, min(n, len(a) - 2 * n + 2), 2)) if len(a) > 2 * n else 0
-                k = (len(a) - off) // n
-                if k >= 2:
-                    x, y = rng.sample(range(k), 2)
-                    ch = [a[off + t * n: off + (t + 1) * n] for t in range(k)]
-                    ch[x], ch[y] = ch[y], ch[x]
-                    b = a[:off] + "".join(ch) + a[off + k * n:]
-            elif kind == "step":
-                v = int(a)
-                b = str(v + 1 if (v == 0 or rng.random() < 0.5) else v - 1)
-            else:
-                o = cases[rng.choice(by_op[key[0]])].line.split(" ")
-                if len(o) == len(w):
-                    b = o[j]
-            if b == a:
-                continue
-            tl = " ".join(w[:j] + [b] + w[j + 1:])
-            if (i, tl) in seen or len(tl) > maxlen:
-                continue
-            seen.add((i, tl))
-            out.append((i, tl, "%s in argument %d" % (kind, j)))
-            progressed = True
+            rng.shuffle(js)
+            for j in js[:6]:
+                a = w[j]
+                runs = [m for m in HEXRUN.finditer(a) if (m.end() - m.start()) % 2 == 0 or True]
+                kinds = ["cross"]
+                if a.isdigit() and len(a) < 25:
+                    kinds += ["step", "step", "step"]
+                if runs and not (a.isdigit() and len(a) < 25):
+                    kinds += ["flip", "flip-late", "flip-early", "flip"]
+                    if any(m.end() - m.start() >= 128 for m in runs):
+                        kinds += ["swap32", "swap32"]
+                    if any(m.end() - m.start() >= 32 for m in runs):
+                        kinds.append("swap8")
+                kind = rng.choice(kinds)
+                b = a
+                if kind == "step":
+                    v = int(a)
+                    b = str(v + 1 if (v == 0 or rng.random() < 0.5) else v - 1)
+                elif kind == "cross":
+                    o = cases[rng.choice(by_op[key[0]])].line.split(" ")
+                    if len(o) == len(w):
+                        b = o[j]
+                else:
+                    need = 128 if kind == "swap32" else 32 if kind == "swap8" else 0
+                    m = rng.choice([m for m in runs if m.end() - m.start() >= need])
+                    run = a[m.start():m.end()]
+                    if len(run) % 2:
+                        run = run[:-1]
+                    b = a[:m.start()] + _vary(run, kind, rng) + a[m.start() + len(run):]
+                if b == a:
+                    continue
+                tl = " ".join(w[:j] + [b] + w[j + 1:])
+                if (i, tl) in seen or len(tl) > maxlen:
+                    continue
+                seen.add((i, tl))
+                out.append((i, tl, "%s in argument %d" % (kind, j)))
+                progressed = True
         if not progressed:
             break
-    return out
+    return out[:want]
 
 
 def write_replay(pid, seed, n, obj):
